@@ -288,6 +288,24 @@ func (w *World) rulesV4ScoreRest(m *scoreModel, modFn *types.Func, add func(ok b
 	var terms []term
 	var eqsvSym, lowerSym string
 	shapeErr := ""
+	// `if lower == 0 { return round(own) }; return round(own - sum/lower)` is
+	// round(own - (lower == 0 ? 0 : sum/lower)): the same rounding applied on both
+	// paths moves outside, and the common minuend with it
+	if tree.Op == "ite" && tree.Cond != nil && len(tree.Args) == 2 {
+		a, b := tree.Args[0], tree.Args[1]
+		if a.Op == "call" && b.Op == "call" && a.Name == "ru" && b.Name == "ru" && len(a.Args) == 1 && len(b.Args) == 1 {
+			ia, ib := a.Args[0], b.Args[0]
+			if ia.Op == "sym" && ib.Op == "sum" && len(ib.Args) == 2 {
+				for k, part := range ib.Args {
+					other := ib.Args[1-k]
+					if part.Op == "sym" && part.Name == ia.Name && other.Op == "prod" && len(other.Args) == 2 && other.Args[0].Op == "const" && other.Args[0].C.Cmp(big.NewRat(-1, 1)) == 0 {
+						mean := &Ex{Op: "ite", Cond: tree.Cond, Args: []*Ex{mkConst(new(big.Rat)), other.Args[1]}}
+						tree = mkCall("ru", mkSum(ia, mkProd(mkConst(big.NewRat(-1, 1)), mean)))
+					}
+				}
+			}
+		}
+	}
 	func() {
 		if tree.Op != "call" || tree.Name != "ru" || len(tree.Args) != 1 {
 			shapeErr = "the returned value is not the rounding of an expression"
